@@ -9,8 +9,8 @@ claimed = {
          "assumed (listed one by one in trusted_base): for switches that are deliberately partial, the implementors without a case are assumed not to arrive (sweeps/C03.assumed-unreachable.json); the IR builder constructs only the types it builds with &T{} / new(T); NOT decided: every other source of panics (index errors, failed type assertions, nil dereferences inside checks), analyzer errors, loader failures", "DESIGN.md §7 C03"),
  "C04": ("proof of key completeness, the direction of cache transparency that contracts can decide: at the moment the action id is computed in subrunner.do the hash has absorbed, in order, the salt, the merged configuration with only Checks cleared, the package hash, the analyzer names, the -go version, GODEBUG and, per dependency, its path and the content hash of its facts file; loader.computeHash absorbs the salt, GOOS/GOARCH, the import path, the ACTION id half of the build id (or all file hashes and go.mod) and one record per import",
          "assumed: formatted records are injective in their arguments (frec uninterpreted), SHA-256 collision-free, cache.NewHash/Sum/FileHash as described (trusted contracts); NOT decided: non-interference of the analysis in everything that is not hashed (environment, files read by analyzers), the write path of the cache (which artefacts are stored under the key), histories of edits", "DESIGN.md §7 C04"),
- "C05": ("proof for every content of an index file (all truncation lengths, all corruptions) that DiskCache.get succeeds only for a well-formed entry naming the requested id and returns what the bytes say; GetBytes/GetFile hand out data only if SHA-256 / size match the entry; and proof of the commit order of copyFile as a crash invariant: in a sequential POSIX-style file model in which every write is an arbitrary prefix (crash / short write), after EVERY I/O call of copyFile the data file satisfies 'has the promised size ==> has the promised SHA-256', so a writer dying at any point of a store never leaves a full-size file with wrong bytes",
-         "assumed (trusted, listed): the file-system model (os.OpenFile/Stat/Truncate/Write/Remove, io.CopyN through io.MultiWriter, io.ReadFull, hex.Decode, strconv.ParseInt), SHA-256 collision-free, the source's content does not change between the two passes (Put's documented precondition), os.Stat fails only for missing files; NOT decided: concurrent processes and Trim (schedules), putIndexEntry's write order, the size==0 exit of copyFile (obligation post.stored@r3 does not discharge, not counted), end-to-end equality of linter results", "DESIGN.md §7 C05"),
+ "C05": ("proof for every content of an index file (all truncation lengths, all corruptions) that DiskCache.get succeeds only for a well-formed entry naming the requested id and returns what the bytes say; GetBytes/GetFile hand out data only if SHA-256 / size match the entry; and proof of the commit order of copyFile as a crash invariant: in a sequential POSIX-style file model in which every write is an arbitrary prefix (crash / short write), after EVERY I/O call of copyFile the data file satisfies 'has the promised size ==> has the promised SHA-256', so a writer dying at any point of a store never leaves a full-size file with wrong bytes, and every successful return of copyFile (all three, including the size==0 one) leaves a file of the promised size and hash; runner.getCachedFiles reports success only if every requested id was found on disk",
+         "assumed (trusted, listed): the file-system model (os.OpenFile/Stat/Truncate/Write/Remove, io.CopyN through io.MultiWriter, io.ReadFull, hex.Decode, strconv.ParseInt), SHA-256 collision-free, the source's content does not change between the two passes (Put's documented precondition), os.Stat fails only for missing files; NOT decided: concurrent processes and Trim (schedules), putIndexEntry's write order, end-to-end equality of linter results", "DESIGN.md §7 C05"),
  "C09": ("proof that the binding machinery of the pattern matcher keeps alternatives atomic: Matcher.set/push/pop/merge against a set view of the frame stack; Or.Match, Not.Match, Binding.Match and Matcher.Match proved against the generic matcher contract G plus the property's clauses (failed Or alternative and Not operand leave no bindings; recall compares against the stored value); Parser.node/object/array/bindingIndex: both spellings of a binding carry the index of their name",
          "assumed: contract G for the reflective core `match` (trusted, listed) and the reflective populateNode; NOT decided: structural equality semantics of the reflective comparison itself", "DESIGN.md §7 C09"),
  "C10": ("proof, at mechanism level, that ignore directives suppress exactly what they name: lineIgnore.match / fileIgnore.match hit exactly the problems in the same file (and line) whose category one of the names glob-matches; parseDirectives turns each well-formed ignore/file-ignore directive into exactly one ignore with the file, line, names and position of the directive, each directive without a reason into one compile error and no ignore, and ignores unknown commands; serializeDirective locates directives with the same position mapping as problems; couldHaveMatched reports an unmatched line directive unless it only names disabled checks or U1000; parseDirective splits command and arguments",
